@@ -74,16 +74,27 @@ func (m *Mutex) Unlock() {
 	simrt.Poke()
 }
 
-// RWMutex is a simulated sync.RWMutex (no writer preference: any order the Go
-// memory model allows may be chosen by the scheduler).
+// RWMutex is a simulated sync.RWMutex. Which of several waiters gets the lock
+// is the scheduler's choice, with the one rule sync.RWMutex documents: "a
+// blocked Lock call excludes new readers from acquiring the lock" - a reader
+// that arrives while a writer is waiting waits for that writer (so a goroutine
+// that read-locks twice deadlocks when a writer arrives in between, as it does
+// for real).
 type RWMutex struct {
 	real    sync.RWMutex
 	writer  bool
 	readers int
+	pending int // writers that have called Lock and not yet got it
 }
 
 func (m *RWMutex) Lock() {
-	if !simrt.YieldCond("RWMutex.Lock", func() bool { return !m.writer && m.readers == 0 }, func() { m.writer = true }) {
+	if !simrt.Active() {
+		m.real.Lock()
+		return
+	}
+	simrt.Locked(func() { m.pending++ })
+	if !simrt.YieldCond("RWMutex.Lock", func() bool { return !m.writer && m.readers == 0 }, func() { m.writer = true; m.pending-- }) {
+		simrt.Locked(func() { m.pending-- })
 		m.real.Lock()
 		return
 	}
@@ -110,7 +121,7 @@ func (m *RWMutex) Unlock() {
 }
 
 func (m *RWMutex) RLock() {
-	if !simrt.YieldCond("RWMutex.RLock", func() bool { return !m.writer }, func() { m.readers++ }) {
+	if !simrt.YieldCond("RWMutex.RLock", func() bool { return !m.writer && m.pending == 0 }, func() { m.readers++ }) {
 		m.real.RLock()
 		return
 	}
@@ -160,7 +171,7 @@ func (m *RWMutex) TryRLock() bool {
 	}
 	ok := false
 	simrt.YieldCond("RWMutex.TryRLock", nil, func() {
-		if !m.writer {
+		if !m.writer && m.pending == 0 {
 			m.readers++
 			ok = true
 		}
